@@ -23,8 +23,8 @@ MODELLED = ["SimulationFixedTimes / SimulationWithJumpTimes / SimulationMaximumS
             "list functions and pinned by the correspondence",
             "sources of randomness are scripted: nb_jump_dt, jump_times_from_nb_of_jumps, model.jump_increment / the chain's "
             "state sampler, np.random.normal, CouplingSimulation.coupling_state (C03 is about its law)",
-            "the Levy-copula simulators (MarkovChainLevyCopula, CouplingProcessLevyCopula) are covered only through "
-            "build_finer_grid on d x n arrays and the F-C15-2 replay; their path assembly is not modelled"]
+            "MarkovChainLevyCopula (2-d) is driven through simulate_one_path and compared component by component with the 1-d chain model; "
+            "the coupled copula simulators (CouplingProcessLevyCopula) are covered only through build_finer_grid on d x n arrays"]
 ASSUMPTIONS = ["floats are modelled by exact rationals: times and jump paths compared exactly (dyadic scripts); the diffusion path "
                "exactly when every sqrt(dt) is an exact double, with absolute tolerance 1e-12 otherwise",
                "C15_jump_times assumes consecutive product intervals and offsets strictly increasing inside (0, dt) "
@@ -32,27 +32,21 @@ ASSUMPTIONS = ["floats are modelled by exact rationals: times and jump paths com
                "C15_finer_grid assumes 0 < eps; the number of passes is bounded by max gap / eps"]
 THEOREM_NOTES = {
     "C15_fixed_dates": "about the repaired tree (fix commit for F-C15-3: np.cumsum of the interval totals); on the unrepaired tree the oracle reports F-C15-3",
-    "C15_jump_times": "partial for the Markov-chain simulators: running sums proved for ONE product interval; with several intervals the chain "
-                      "restarts at the origin (C15_chain_restart_refuted, F-C15-4)",
-    "C15_cap_inner_steps": "positive cap theorem for what SimulationMaximumStep returns: every step except the last one <= eps (Q arithmetic; "
-                           "in float arithmetic on non-dyadic inputs the remainders are rounded: F-C15-5, oracle tolerance 1e-12)",
+    "C15_jump_times": "Levy and (repaired, F-C15-4) Markov-chain jump-time simulators: running sums for any number of product intervals",
     "C15_finer_grid_aligned": "a parametricity statement about the pair-valued model (one gap list, values inserted at the same positions by "
                               "construction); that the two numpy inserts of helper.py really use the same positions is pinned by the correspondence",
     "C15_finer_grid": "Refines = inserted points carry the value of the point before them and take their gap out of the following original point",
-    "C15_cap_whole_path_refuted": "F-C15-1: the cap is applied before t=0 and the maturity are added",
+    "C15_cap_whole_path": "about the repaired tree (F-C15-1: refine_up_to_maturity): every step <= eps incl. the last step and jump-free paths; "
+                          "Q arithmetic (float rounding on non-dyadic inputs: F-C15-5)",
 }
 
 TOL = Fraction(1, 10 ** 12)
 
 # one message per recorded finding (the replay carries the specific simulator / component / input)
 CANON = {
-    "F-C15-1": "max_step_epsilon: a step of the returned path exceeds epsilon (the step to the maturity / a path without jumps is not refined)",
-    "F-C15-2": "MCLevyCopulaSimulationFixedTimes.project fails for more than one product date",
     "F-C15-3": "fixed-date simulators: the jump part at a date is the jump total of the last interval, not the running sum",
     "F-C15-5": "build_finer_grid in float arithmetic on non-dyadic inputs: the remainders of gaps that are (nearly) multiples of epsilon are "
                "rounded, giving duplicate times and original jump times shifted by an ulp",
-    "F-C15-4": "Markov-chain jump-time simulators (single and coupled) restart the jump path at the origin at every product date "
-               "(the coupled variant raises on intervals with different jump counts)",
 }
 
 
@@ -61,23 +55,6 @@ def matches_known(v, known):
     r, kid = v["replay"], known["id"]
     fr = lambda x: Fraction(x) if not isinstance(x, str) else Fraction(x)   # noqa  (replays may carry "p/q" strings)
     try:
-        if kid == "F-C15-1":
-            times, eps = [fr(t) for t in r["times"]], fr(r["eps"])
-            steps = [b - a for a, b in zip(times, times[1:])]
-            return all(x <= eps for x in steps[:-1]) and steps[-1] > eps and times[0] == 0 and times[-1] == fr(r["T"])
-        if kid == "F-C15-2":
-            err = r.get("error", "")
-            return (r.get("kind") == "copula-project" or (r.get("kind") == "copula" and r.get("mode") == "fixed" and r.get("intervals", 0) >= 2)) \
-                and err.startswith("TypeError") and ("Cannot construct a dtype from an array" in err or "array() takes from 1 to 2 positional arguments" in err)
-        if kid == "F-C15-4":
-            if r.get("intervals", 0) < 2 or r.get("mode") not in ("jump", "cap"):
-                return False
-            if "error" in r:        # coupled / copula variants raise when the intervals have different numbers of jumps
-                ragged = len(set(r.get("counts", []))) > 1
-                err = r["error"]
-                return ragged and err.startswith("ValueError") and ("inhomogeneous" in err or "all the input array dimensions" in err)
-            return r.get("process", "chain") != "levy" and "restart_prediction" in r \
-                and [fr(x) for x in r["jumps"]] == [fr(x) for x in r["restart_prediction"]]
         if kid == "F-C15-5":
             return r.get("kind") == "finer-nondyadic" and r.get("class") in ("duplicate time", "original time lost", "step above eps by rounding") \
                 and r.get("max_excess", 1.0) <= 1e-12
@@ -222,18 +199,8 @@ def check_path(res, what, times, diff, jumps, T, jump_times_expected, running_ex
         bad(f"{what}: times / diffusion / jump components have different lengths", lens=[len(times), len(diff), len(jumps)])
         return False
     if running_expected is not None and [F(v) for v in jumps] != running_expected:
-        fid = {"fixed": "F-C15-3", "chain-restart": "F-C15-4"}.get(ctx.get("finding_hint"))
+        fid = {"fixed": "F-C15-3"}.get(ctx.get("finding_hint"))
         rp = dict(times=times, jumps=jumps, running_sum=running_expected)
-        if fid == "F-C15-4" and interval_sizes is not None and jump_times_expected is not None:
-            # what the faithful model of the recorded defect predicts: every interval's chain restarts at the origin
-            restart = []
-            for r in interval_sizes:
-                acc = Fraction(0)
-                for v in r:
-                    acc += F(v)
-                    restart.append(acc)
-            rp["restart_prediction"] = ([Fraction(0)] + refined_expectation(jump_times_expected, restart, times[1:-1])
-                                        + [restart[-1] if restart else Fraction(0)])
         if fid:
             rp["finding"] = fid
         bad(f"{what}: the jump part is not the running sum of the jump increments up to each time", **rp)
@@ -246,12 +213,10 @@ def check_path(res, what, times, diff, jumps, T, jump_times_expected, running_ex
             bad(f"{what}: the diffusion part is not the running sum of the scaled Brownian increments", diffusion=diff, want=want)
     if eps is not None and eps < T:
         steps = [b - a for a, b in zip(times, times[1:])]
-        inner = steps[:-1]          # every step except the one that ends at the maturity
-        if inner and max(inner) > eps:
-            bad(f"{what}: a step of the returned path exceeds max_step_epsilon (inner step)", times=times, eps=eps, step=max(inner), where="inner step")
-        if steps[-1] > eps:         # recorded class F-C15-1: only the step to the maturity (the single step of a jump-free path)
-            where = "path without jumps" if len(times) == 2 else "step to the maturity"
-            bad(f"{what}: a step of the returned path exceeds max_step_epsilon ({where})", times=times, eps=eps, step=steps[-1], where=where, finding="F-C15-1")
+        if max(steps) > eps:        # EVERY step, the one to the maturity and the steps of a path without jumps included
+            k = max(range(len(steps)), key=lambda i: steps[i])
+            where = "path without jumps" if len(times) == 2 else ("step to the maturity" if k == len(steps) - 1 else "inner step")
+            bad(f"{what}: a step of the returned path exceeds max_step_epsilon ({where})", times=times, eps=eps, step=steps[k], where=where)
     return ok
 
 
@@ -378,7 +343,6 @@ def single_process_cases(res, rng, tier):
                 acc += v
                 cum.append(acc)
             run = [Fraction(0)] + refined_expectation(jt, cum, times[1:-1]) + [cum[-1] if cum else Fraction(0)]
-            ctx["finding_hint"] = "chain-restart" if (kind == "chain" and n_int > 1) else None
             check_path(res, f"{type(proc).__name__} ({'jump times' if eps is None else 'jump times, max step'})", times, diff, jumps, T, jt, run, ssw, eps, ctx,
                        interval_sizes=sizes)
             if eps is not None and eps < T and any(F(t) not in {F(x) for x in times} for t in jt):
@@ -409,16 +373,14 @@ def coupled_cases(res, rng, tier):
     n_iter = 90 if tier == "quick" else 400
     for it in range(n_iter):
         mode = ["fixed", "jump", "cap"][it % 3]
-        n_int = rng.choice([1, 2, 3]) if mode == "fixed" else (1 if it % 5 else 2)
+        n_int = rng.choice([1, 2, 3])
         dt = rng.choice([0.25, 1.0, 4.0]) if mode == "fixed" else rng.choice([0.5, 1.0, 2.0])
         T = dt * n_int
         eps = rng.choice([T / 8, dt / 4, 3 * dt / 16, T, dt / 2]) if mode == "cap" else None
-        if mode == "cap" and n_int == 2:
+        if mode == "cap" and n_int >= 2 and rng.random() < 0.5:
             eps = rng.choice([dt, 1.5 * dt])        # product interval <= eps < maturity
         prod = make_product(n_int + 1, T, stochastic=(mode != "fixed"))
         counts, offsets = gen_script(rng, n_int, dt)
-        if mode != "fixed" and n_int == 2:        # the coupled jump-time simulator needs equally many jumps per interval not to raise on ragged arrays
-            counts, offsets = gen_script(rng, n_int, dt, allow_empty=False)
         ctx = {"kind": "coupled", "mode": mode, "intervals": n_int, "dt": dt, "T": T, "eps": eps, "counts": counts, "offsets": offsets}
         try:
             cp = CouplingMarkovChain(StepModel(the_measure(), a=0.25, sigma=0.5), SamplingMethod.BINARYSEARCHTREEADAPTED1D,
@@ -444,8 +406,6 @@ def coupled_cases(res, rng, tier):
                 used = list(pt.used_normals)
         except Exception as e:  # noqa
             rp = dict(ctx, error=f"{type(e).__name__}: {e}")
-            if mode != "fixed" and n_int > 1:
-                rp["finding"] = "F-C15-4"
             report(res, f"CouplingMarkovChain.simulate_one_path_with_coupling raises {type(e).__name__} ({mode}, {n_int} interval(s))", rp)
             continue
         times = [float(t) for t in sp.jump_times[:]]
@@ -478,7 +438,7 @@ def coupled_cases(res, rng, tier):
                     acc += v
                     cum.append(acc)
                 run = [Fraction(0)] + refined_expectation(jt, cum, times[1:-1]) + [cum[-1] if cum else Fraction(0)]
-                c2 = dict(ctx, component=name, finding_hint="chain-restart" if n_int > 1 else None)
+                c2 = dict(ctx, component=name)
                 check_path(res, f"CouplingMarkovChain {name} ({'jump times' if eps is None else 'jump times, max step'})", times, d_, j_, T, jt, run, ssw, eps, c2,
                            interval_sizes=sizes)
         ql = lambda xs: lst([qlit(v) for v in xs])    # noqa
@@ -643,7 +603,7 @@ def finer_grid_nondyadic(res, rng, tier):
 
 def copula_cases(res, rng, tier):
     """MarkovChainLevyCopula (2-d, independent copula of two step models) through simulate_one_path: one product
-    interval (several intervals fail: F-C15-2 / F-C15-4); every component is compared with the 1-d chain model"""
+    or several product intervals; every component is compared with the 1-d chain model"""
     import numpy as np
     from stepmeasure import make_grid, step_spec, build_copula_model
     from rpylib.process.markovchain.markovchainlevycopula import MarkovChainLevyCopula
@@ -652,13 +612,11 @@ def copula_cases(res, rng, tier):
     d = 2
     for it in range(60 if tier == "quick" else 300):
         mode = ["jump", "cap", "fixed"][it % 3]
-        n_int = 2 if it % 9 == 8 else 1
+        n_int = rng.choice([1, 1, 2, 3, 4])
         dt = rng.choice([0.25, 1.0, 4.0]) if mode == "fixed" else rng.choice([0.5, 1.0, 2.0])
         T = dt * n_int
-        eps = rng.choice([T / 8, dt / 4, 3 * dt / 16, T, dt / 2]) if mode == "cap" else None
-        counts, offsets = gen_script(rng, n_int, dt, allow_empty=(n_int == 1))
-        if n_int == 2:
-            counts, offsets = [2, 1], [[dt / 4, dt / 2], [dt / 4]]
+        eps = rng.choice([T / 8, dt / 4, 3 * dt / 16, T, dt / 2, dt]) if mode == "cap" else None
+        counts, offsets = gen_script(rng, n_int, dt)
         ctx = {"kind": "copula", "mode": mode, "intervals": n_int, "dt": dt, "T": T, "eps": eps, "counts": counts, "offsets": offsets}
         try:
             spec = step_spec(the_measure(), a=0.25, sigma=0.5)
@@ -679,8 +637,6 @@ def copula_cases(res, rng, tier):
                 used = list(pt.used_normals)
         except Exception as e:  # noqa
             rp = dict(ctx, error=f"{type(e).__name__}: {e}")
-            if n_int > 1:
-                rp["finding"] = "F-C15-2" if mode == "fixed" else "F-C15-4"
             report(res, f"MarkovChainLevyCopula.simulate_one_path raises {type(e).__name__} ({mode}, {n_int} interval(s))", rp)
             continue
         times = [float(t) for t in sp.jump_times[:]]
@@ -705,11 +661,15 @@ def copula_cases(res, rng, tier):
             if abs(dm[k, 1 - k]) > 0:
                 continue
             if mode == "fixed":
-                run = [Fraction(0), sum(flat, Fraction(0))]
+                run, acc = [Fraction(0)], Fraction(0)
+                for r in sizes[k]:
+                    acc += sum((F(v) for v in r), Fraction(0))
+                    run.append(acc)
+                c2["finding_hint"] = "fixed"
                 check_path(res, "MarkovChainLevyCopula (fixed dates)", times, d_, j_, T, None, run, ssw, None, c2)
                 fixed_cases.append(f"(true, {ql(sq)}, {qlit(sigma)}, {ql(ws_k)}, {lst([ql(r) for r in sizes[k]])}, {qlit(tol)}, {ql(d_)}, {ql(j_)})")
             else:
-                jt = [o for offs in offsets for o in offs]
+                jt = [kk * dt + o for kk, offs in enumerate(offsets) for o in offs]
                 cum, acc = [], Fraction(0)
                 for v in flat:
                     acc += v
@@ -717,24 +677,24 @@ def copula_cases(res, rng, tier):
                 run = [Fraction(0)] + refined_expectation(jt, cum, times[1:-1]) + [cum[-1] if cum else Fraction(0)]
                 check_path(res, f"MarkovChainLevyCopula ({'jump times' if eps is None else 'jump times, max step'})", times, d_, j_, T, jt, run, ssw, eps, c2)
                 cap = "None" if eps is None else f"(Some {qlit(eps)})"
-                jump_cases.append(f"(true, {cap}, {qlit(T)}, {ql([0.0])}, {lst([ql(offs) for offs in offsets])}, {lst([ql(r) for r in sizes[k]])}, "
+                jump_cases.append(f"(true, {cap}, {qlit(T)}, {ql([kk * dt for kk in range(n_int)])}, {lst([ql(offs) for offs in offsets])}, {lst([ql(r) for r in sizes[k]])}, "
                                   f"{ql(sq)}, {qlit(sigma)}, {ql(ws_k)}, {qlit(tol)}, {ql(times)}, {ql(d_)}, {ql(j_)})")
     return fixed_cases, jump_cases
 
 
 def copula_fixed_dates_replay(res):
-    """F-C15-2: MCLevyCopulaSimulationFixedTimes.project with more than one product date"""
+    """MCLevyCopulaSimulationFixedTimes.project with several product dates (the former F-C15-2): one column per date, running totals"""
     import numpy as np
     from rpylib.process.markovchain.markovchainlevycopula import MCLevyCopulaSimulationFixedTimes
-    vals = [np.array([[0.25, 0.5]]), np.array([[0.5, 0.25], [0.75, 0.25]])]     # two dates, 1 and 2 jumps, d = 2
-    res.count(("copula-project", 2), kind="copula fixed dates (project)")
+    vals = [np.array([[0.25, 0.5]]), np.array([]), np.array([[0.5, 0.25], [0.75, 0.25]])]     # three dates: 1, 0 and 2 jumps, d = 2
+    res.count(("copula-project", 3), kind="copula fixed dates (project)")
     try:
-        out = MCLevyCopulaSimulationFixedTimes.project(vals, 2)
-        if np.asarray(out).shape not in ((2, 2),):
-            report(res, "MCLevyCopulaSimulationFixedTimes.project: wrong shape for two product dates", {"kind": "copula-project", "finding": "F-C15-2", "got": np.asarray(out).tolist()})
+        out = np.asarray(MCLevyCopulaSimulationFixedTimes.project(vals, 2), dtype=float)
+        if out.shape != (2, 3) or out.tolist() != [[0.25, 0.25, 1.0], [0.5, 0.5, 0.75]]:
+            report(res, "MCLevyCopulaSimulationFixedTimes.project: not the running totals per product date", {"kind": "copula-project", "got": out.tolist()})
     except Exception as e:  # noqa
         report(res, f"MCLevyCopulaSimulationFixedTimes.project raises {type(e).__name__} for more than one product date",
-                      {"kind": "copula-project", "finding": "F-C15-2", "error": f"{type(e).__name__}: {e}"})
+               {"kind": "copula-project", "error": f"{type(e).__name__}: {e}"})
 
 
 HEADER = """From Coq Require Import ZArith QArith Qabs List Bool.
@@ -841,19 +801,20 @@ def replay(path):
     return 1
 
 
-LEVEL_TEXT = ("Proof: 8 Coq theorems (closed under the global context) about list models of the path builders: with fixed product dates the "
+LEVEL_TEXT = ("Proof: 6 Coq theorems (closed under the global context) about list models of the path builders: with fixed product dates the "
               "jump part at each date is the sum of all increments of the intervals so far, each date-to-date increment uses that "
               "interval's variates only, the diffusion part is the running sum of the scaled normals (any number of dates/jumps); with "
-              "jump times the times start at 0, end at the maturity and are strictly increasing, values are running sums and the last "
-              "value is repeated at maturity; build_finer_grid (both copies, any value type) terminates within max gap/eps passes, leaves "
-              "every gap <= eps, keeps the original points in order, inserts only points repeating the preceding value, and refines fine "
-              "and coarse at the same positions. Refuted for the current tree: the cap does not reach the step to the maturity nor a "
-              "jump-free path (F-C15-1); the Markov-chain jump-time simulators restart at the origin at each product date (F-C15-4). "
-              "Tied to the source by driving real LevyProcess / MarkovChainProcess / CouplingMarkovChain objects through "
-              "simulate_one_path with scripted variates against the model (exact on dyadic scripts). Partial: Levy-copula simulators "
-              "are covered through build_finer_grid only.")
+              "jump times the times start at 0, end at the maturity and are strictly increasing, values are running sums - also for the "
+              "Markov-chain simulators over any number of product dates - and the last value is repeated at maturity; build_finer_grid "
+              "(both copies, any value type) terminates within max gap/eps passes, leaves every gap <= eps, keeps the original points in "
+              "order, inserts only points repeating the preceding value, refines fine and coarse at the same positions; and the path the "
+              "max-step simulators return has EVERY step <= eps, the step to the maturity and jump-free paths included. Tied to the source "
+              "by driving real LevyProcess / MarkovChainProcess / MarkovChainLevyCopula / CouplingMarkovChain objects through simulate_one_path "
+              "with scripted variates against the model (exact on dyadic scripts), 1-12 product dates. The model follows the tree with the "
+              "fixes for F-C15-1/2/3/4. Partial: the coupled Levy-copula simulators are covered through build_finer_grid only; float rounding "
+              "of build_finer_grid on non-dyadic inputs is the known finding F-C15-5.")
 LEVEL_NOTE = ("Trusted: Coq kernel + vm_compute; floats as rationals (dyadic scripts exact; sqrt of the steps fed as data, diffusion within 1e-12 "
               "when a sqrt is inexact); numpy insert/cumsum/diff/flatnonzero modelled by list functions and pinned by the correspondence; the "
               "randomness sources are scripted at nb_jump_dt / jump_times_from_nb_of_jumps / the state sampler / np.random.normal / "
-              "coupling_state. The model follows the tree with the fix for F-C15-3; F-C15-1, F-C15-2, F-C15-4, F-C15-5 (float rounding in build_finer_grid on non-dyadic inputs) are recorded as known findings, each accepted only through matches_known.")
+              "coupling_state. F-C15-5 (float rounding in build_finer_grid on non-dyadic inputs) is accepted only through matches_known.")
 TECHNIQUE = "Coq proof (induction over interval/gap lists, an inductive refinement relation for build_finer_grid) on hand models + vm_compute correspondence through simulate_one_path with scripted variates"
